@@ -211,9 +211,13 @@ func (p *exeParser) readFragment() (sel Selection, err error) {
 			line := p.line
 			col := p.col
 			if t, err = p.readType(); err == nil {
-				if _, ok := t.(*Ref); ok {
+				switch t.(type) {
+				case *Ref, *Directive:
+					// GetType() also finds directives, they are not types.
 					err = parseError(line, col, "type %s not defined", t.Name())
-				} else {
+				case *List, *NonNull:
+					err = parseError(line, col, "a type condition must be a named type, not %s", t.Name())
+				default:
 					sel, err = p.readInline(t)
 				}
 			}
